@@ -1,6 +1,6 @@
 (* JsonLemmas.v — proofs about coq/Json.v (JSON literal on its fragment; Tuple/Array token structure). *)
 From Coq Require Import Lia.
-From PV Require Import Base Interval Json lemmas.IntervalLemmas.
+From PV Require Import Base gen.C20Table Interval Json lemmas.IntervalLemmas.
 
 Local Open Scope string_scope.
 
@@ -159,6 +159,36 @@ Proof.
   assert (E : json_sql (Some "'") v = sql_quote (json_spec v)).
   { unfold json_sql, fq, sql_quote. simpl ostr. rewrite E1, (double_noq _ E2). reflexivity. }
   split; [exact E1|]. split; [exact E|]. rewrite E. apply sql_decode_quote.
+Qed.
+
+(* ---- keyword contexts: only the outer literal quote depends on the context ---- *)
+Lemma json_sql_ctx_indep : forall c c' v, cx_secondary c = cx_secondary c' -> json_sql_ctx c v = json_sql_ctx c' v.
+Proof. intros c c' v H. unfold json_sql_ctx. rewrite H. reflexivity. Qed.
+
+Lemma json_sql_ctx_shape : forall c v, json_sql_ctx c v = fq (cx_secondary c) (json_text v).
+Proof. reflexivity. Qed.
+
+(* every one of the ten query classes (constants read from the code on this run) uses the standard
+   single quote for string literals *)
+Lemma class_ctxs_single_quote :
+  forallb (fun e => option_eqb String.eqb (cx_secondary (snd e)) (Some "'")) class_ctxs = true
+  /\ map fst class_ctxs = ["Query"; "MySQLQuery"; "VerticaQuery"; "OracleQuery"; "PostgreSQLQuery"; "RedshiftQuery";
+                           "MSSQLQuery"; "ClickHouseQuery"; "SQLLiteQuery"; "SnowflakeQuery"].
+Proof. split; reflexivity. Qed.
+
+Theorem json_on_fragment_ctx : forall c v, cx_secondary c = Some "'" -> jfrag v = true ->
+  json_sql_ctx c v = sql_quote (json_spec v) /\ sql_decode (json_sql_ctx c v) = Some (json_spec v).
+Proof.
+  intros c v Hc H. unfold json_sql_ctx. rewrite Hc.
+  destruct (json_on_fragment v H) as (_ & E1 & E2). split; assumption.
+Qed.
+
+Theorem json_on_fragment_classes : forall name c v, In (name, c) class_ctxs -> jfrag v = true ->
+  json_sql_ctx c v = sql_quote (json_spec v) /\ sql_decode (json_sql_ctx c v) = Some (json_spec v).
+Proof.
+  intros name c v Hin H. apply json_on_fragment_ctx; [|exact H].
+  destruct class_ctxs_single_quote as [A _]. rewrite forallb_forall in A. specialize (A _ Hin). simpl in A.
+  destruct (cx_secondary c) as [s|]; [|discriminate]. simpl in A. apply String.eqb_eq in A. congruence.
 Qed.
 
 (* ------------------------------------------------------------------------------------------ *)
